@@ -36,7 +36,7 @@ def run(ck, F):
                  'matching release while traversing the links the allocation is stored in', floor=3)
     R2 = ck.rule('C19.no-other-raw-ownership', 'no other function of the library allocates raw memory (non-placement new, malloc)', floor=2000)
     R3 = ck.rule('C19.linked', 'a raw allocation is stored into its owner\'s structure in the function that makes it (or its caller) on every path', floor=3)
-    R4 = ck.rule('C19.payload-destroyed', 'the owner destroys the payload it constructed in raw storage before releasing it', floor=1)
+    R4 = ck.rule('C19.payload-destroyed', 'the owner destroys the payload it constructed in raw storage before releasing it (judged on the evaluated destructor of every table instantiation; trivially destructible payloads need no call)', floor=15)
     R5 = ck.rule('C19.destruction-order', 'destroying the string pool cannot touch freed arena storage: String has a trivial destructor', floor=1)
 
     sites = []
@@ -118,36 +118,111 @@ def run(ck, F):
                 continue
             linked = stores_result(F, f, owner)
             ck.check(R3, inst + '/linked', linked, f'{f["id"]}: the result of {nm} is not stored into a link of {owner}', loc=f['loc'], fn=f['id'])
-    # completeness of the traversals: every owning link is followed
-    R6 = ck.rule('C19.traversal-complete', 'the release traversal follows every owning link of a node (both children of a tree node, '
-                 'the previous-pool link of the arena)', floor=2)
-    trees = [f for f in F.fn.values() if (f.get('parent') or '').startswith('ipr::util::rb_tree::container<')
-             and any((n['callee'].get('id') == f['id']) for n in calls_in(f))]
-    if not trees:
-        ck.fail(R6, 'rb_tree::container', 'no recursive release traversal in rb_tree::container', loc=places_loc(F))
-    else:
-        g = sorted(trees, key=lambda f: f['id'])[0]
-        followed = set()
-        for n in calls_in(g):
-            if n['callee'].get('id') == g['id']:
-                for m in walk(n.get('args')):
-                    if m.get('k') == 'call' and (m.get('callee') or {}).get('name') in ('left', 'right', 'parent'):
-                        followed.add(m['callee']['name'])
-        ck.check(R6, 'rb_tree::container', followed == {'left', 'right'},
-                 f'{g["id"]} recurses into {sorted(followed)}; a tree node owns its left and right children', loc=g['loc'], fn=g['id'])
+    # completeness of the traversals, decided on the evaluated destructors (not on the shape of their loops)
+    R6 = ck.rule('C19.traversal-complete', 'the release traversal reaches every block: the arena destructor, evaluated on a chain of '
+                 'k = 0..3 pools, releases exactly those k pools and never reads a pool it has released; the tree\'s release function, '
+                 'evaluated on a non-empty subtree, re-issues itself on both children of the node, then releases the node, and does '
+                 'nothing on an empty subtree', floor=20)
+    from symex import Sym, Unsupported, NULL
+    THIS = ('sym', 'this')
+    prec = F.need_rec('ipr::util::string::arena::pool')
+    F_PREV = F.role_field('ipr::util::string::arena::pool', lambda fl: fl['t'].rstrip().endswith('*'), 'link to the previous pool')
+    F_MEM = F.role_field('ipr::util::string::arena', lambda fl: fl['t'].rstrip().endswith('pool *'), 'head of the pool chain')
+    M0 = ('fld', THIS, F_MEM)
     ad = [f for f in F.fn.values() if f.get('dtor') and f.get('parent') == 'ipr::util::string::arena']
     if not ad:
         raise AnalysisBroken('arena destructor not found')
-    loops = [n for n in walk(ad[0].get('body')) if n.get('k') in ('while', 'for', 'do')]
-    ok = False
-    for l in loops:
-        upd = [n for n in walk(l) if n.get('k') == 'binop' and n.get('op') == '=' and strip_casts(n['l']).get('name') == 'mem'
-               and any(m.get('k') == 'member' and m.get('name') == 'previous' for m in walk(n['r']))]
-        rel = [n for n in walk(l) if n.get('k') == 'call' and (n.get('callee') or {}).get('name') == 'operator delete']
-        cond_mem = any(m.get('k') == 'member' and m.get('name') == 'mem' for m in walk(l.get('c')))
-        ok = ok or (bool(upd) and bool(rel) and cond_mem)
-    ck.check(R6, 'string::arena', ok, 'the arena destructor does not walk the whole pool chain (mem = mem->previous until null, releasing each)',
-             loc=ad[0]['loc'], fn=ad[0]['id'])
+    Sd = Sym(F, opaque=lambda fid: False, max_depth=20)
+    Sd.concrete_loops = True
+    Sd.loop_cut = 4
+    try:
+        outs = Sd.run(ad[0]['id'], this=THIS)
+    except Unsupported as e:
+        raise AnalysisBroken(f'{ad[0]["id"]}: outside the evaluator language: {e}')
+    chain = [M0]
+    for _ in range(6):
+        chain.append(('fld', ('deref', chain[-1]), F_PREV))
+    seen_k = set()
+    for st, kind, _v in outs:
+        if kind != 'return':
+            ck.fail(R6, 'string::arena/throws', f'the arena destructor can throw {_v}', loc=ad[0]['loc'], fn=ad[0]['id'])
+            continue
+        freed = [(i, e[2]) for i, e in enumerate(st.effects) if e[0] in ('release', 'delete')]
+        k = len(freed)
+        seen_k.add(k)
+        if k > 3:
+            continue
+        what = []
+        if [x for _i, x in freed] != chain[:k] and set(x for _i, x in freed) != set(chain[:k]):
+            what.append(f'with {k} block(s) released, the released blocks are not the first {k} pools of the chain')
+        # the path must end because the next pool is absent, not earlier
+        if Sd.truth(('op', '==', chain[k], NULL), st) is not True and Sd.truth(('op', '!=', chain[k], NULL), st) is not False \
+                and Sd.truth(chain[k], st) is not False:
+            what.append(f'the traversal stops after {k} block(s) although pool {k} of the chain may exist')
+        for i, x in freed:
+            late = [d for d in st.derefs if d[0] == x and d[4] > i]
+            if late:
+                what.append(f'a released pool is read again (line {late[0][1]})')
+        ck.check(R6, f'string::arena/chain of {k}', not what, 'arena destructor: ' + '; '.join(what), loc=ad[0]['loc'], fn=ad[0]['id'])
+    for k in range(4):
+        if k not in seen_k:
+            ck.fail(R6, f'string::arena/chain of {k}', f'no path of the arena destructor releases exactly {k} pool(s)', loc=ad[0]['loc'], fn=ad[0]['id'])
+    # the tree
+    conts = sorted(n for n, r in F.rec.items() if r.get('template') == 'ipr::util::rb_tree::container')
+    ntree = 0
+    for c0 in conts:
+        dt = [f for f in F.fns_in(c0) if f.get('dtor') and not f.get('implicit')]
+        if not dt:
+            continue                      # judged by C19.allocation-paired
+        St = Sym(F, opaque=lambda fid: False, max_depth=20)
+        try:
+            outs = St.run(dt[0]['id'], this=THIS)
+        except Unsupported as e:
+            raise AnalysisBroken(f'{dt[0]["id"]}: outside the evaluator language: {e}')
+        T = (F.rec[c0].get('targs') or [None])[0]
+        trivially = bool(F.rec.get(T, {}).get('trivially_destructible'))
+        ntree += 1
+        inst = f'{contracts.short(c0)}::~container'
+        N = ('fld', THIS, F.role_field(c0, lambda fl: fl['t'].rstrip().endswith('*'), 'root of the tree', inherited=True))
+        what = []
+        seen_nonempty = False
+        for st, kind, _v in outs:
+            if kind != 'return':
+                what.append(f'can throw {_v}')
+                continue
+            nonnull = St.truth(('op', '!=', N, NULL), st)
+            if nonnull is None:
+                nonnull = St.truth(N, st)
+            re = [(i, e[3][0]) for i, e in enumerate(st.effects) if e[0] == 'reentry' and e[3]]
+            rel = [(i, e) for i, e in enumerate(st.effects) if (e[0] == 'call' and contracts.fn_simple(e[1]) == 'deallocate' and N in e[3])
+                   or (e[0] in ('release', 'delete') and e[2] == N)]
+            dtor = [(i, e) for i, e in enumerate(st.effects) if e[0] == 'dtor' and isinstance(e[2], tuple) and e[2][:2] == ('fld', ('deref', N))]
+            if nonnull is not True:
+                if re or rel:
+                    what.append('touches an empty tree')
+                continue
+            seen_nonempty = True
+            kids = {t for _i, t in re}
+            arms = {t for t in kids if isinstance(t, tuple) and t[0] == 'index' and isinstance(t[1], tuple) and t[1][:2] == ('fld', ('deref', N))}
+            if len({t[1] for t in arms}) > 1:
+                arms = set()
+            if len(kids) != 2 or len(arms) != 2:
+                what.append(f'the release function re-issues itself on {len(arms)} of the two child links of a node '
+                            f'({sorted(contracts.render(t, st, {}) for t in kids)}): a subtree is never released')
+            if len(rel) != 1:
+                what.append(f'releases the root node {len(rel)} time(s)')
+            elif re and max(i for i, _t in re) > rel[0][0]:
+                what.append('releases a node before both of its subtrees were handed on (its links are read from released storage)')
+            if rel and not trivially and not (dtor and dtor[0][0] < rel[0][0]):
+                ck.fail(R4, f'{contracts.short(c0)} payload', f'{c0}: the payload ({contracts.short(T or "?")}, not trivially destructible) is '
+                        f'not destroyed before its node is released', loc=dt[0]['loc'], fn=dt[0]['id'])
+            elif rel:
+                ck.ok(R4, f'{contracts.short(c0)} payload', detail={'trivially_destructible': trivially})
+        if not seen_nonempty:
+            what.append('no path handles a non-empty tree')
+        ck.check(R6, inst, not what, f'{dt[0]["id"]}: ' + '; '.join(what), loc=dt[0]['loc'], fn=dt[0]['id'])
+    if not ntree:
+        raise AnalysisBroken('no release traversal of rb_tree::container evaluated')
 
     # the pool chain after an allocation: nothing that was reachable is lost, everything new is reachable
     R7 = ck.rule('C19.chain-preserved', 'on every path of arena::allocate (and of the constructor) the chain mem -> previous -> ... '
@@ -156,7 +231,7 @@ def run(ck, F):
     from symex import Sym, Unsupported, NULL
     S7 = Sym(F, opaque=lambda fid: False, max_depth=20)
     THIS = ('sym', 'this')
-    M0 = ('fld', THIS, 'mem')
+    M0 = ('fld', THIS, F_MEM)
 
     def news_in(t, acc):
         if isinstance(t, tuple):
@@ -165,10 +240,27 @@ def run(ck, F):
             for x in t:
                 news_in(x, acc)
         return acc
-    arena_fns = [f for f in F.fns_in('ipr::util::string::arena')
-                 if any((n['callee'].get('name') == 'operator new') for n in calls_in(f))]
+    ARENA = 'ipr::util::string::arena'
+
+    def reaches_new(f, seen=None):
+        seen = seen if seen is not None else set()
+        if f['id'] in seen:
+            return False
+        seen.add(f['id'])
+        for n in calls_in(f):
+            c = n['callee']
+            if c.get('name') == 'operator new':
+                return True
+            g = F.fn.get(c.get('id'))
+            if g is not None and g.get('parent') == ARENA and reaches_new(g, seen):
+                return True
+        return False
+    # entry points: the constructor and the member functions (not static helpers, which are evaluated inside their callers)
+    arena_fns = [f for f in F.fns_in(ARENA) if not f.get('static') and not f.get('dtor') and reaches_new(f)
+                 and not any(g is not f and not g.get('static') and any(n['callee'].get('id') == f['id'] for n in calls_in(g))
+                             for g in F.fns_in(ARENA))]
     if len(arena_fns) < 2:
-        raise AnalysisBroken(f'arena allocation sites: expected the constructor and allocate, found {[f["id"] for f in arena_fns]}')
+        raise AnalysisBroken(f'arena allocation entry points: expected the constructor and allocate, found {[f["id"] for f in arena_fns]}')
     for f in sorted(arena_fns, key=lambda f: f['id']):
         try:
             outs = S7.run(f['id'], this=THIS)
@@ -186,7 +278,7 @@ def run(ck, F):
             visited, tail = [], None
             for _ in range(8):
                 visited.append(cur)
-                key = ('fld', ('deref', cur), 'previous')
+                key = ('fld', ('deref', cur), F_PREV)
                 if key not in st.symstore:
                     tail = key
                     break
@@ -194,7 +286,7 @@ def run(ck, F):
                 if nxt == NULL or (isinstance(nxt, tuple) and nxt[0] == 'k'):
                     tail = NULL
                     break
-                if isinstance(nxt, tuple) and nxt[0] == 'fld' and nxt[2] == 'previous':
+                if isinstance(nxt, tuple) and nxt[0] == 'fld' and nxt[2] == F_PREV:
                     tail = nxt            # the value the link had on entry
                     break
                 cur = nxt
@@ -208,40 +300,11 @@ def run(ck, F):
             else:
                 if M0 not in visited:
                     what.append('the pool that was the head on entry is no longer reachable from mem')
-                if tail != ('fld', ('deref', M0), 'previous'):
+                if tail != ('fld', ('deref', M0), F_PREV):
                     what.append('the chain no longer ends in the pools that followed the old head (they are never released)')
             ck.check(R7, inst, not what, f'{f["id"]}: ' + '; '.join(what), loc=f['loc'], fn=f['id'],
                      detail={'fresh_blocks': len(fresh), 'chain_length_followed': len(visited)})
 
-    # payload destruction in the tree
-    cont = [r for r in F.rec.values() if r.get('template') == 'ipr::util::rb_tree::container']
-    if not cont:
-        raise AnalysisBroken('no rb_tree::container instantiation')
-    places = [f for f in F.fn.values() if (f.get('parent') or '').startswith('ipr::util::rb_tree::container<') and
-              any(n.get('k') == 'new' and n.get('placement') for n in walk(f.get('body')))]
-    if not places:
-        raise AnalysisBroken('placement construction in the tree not found')
-    c0 = places[0]['parent']
-    dt = [f for f in F.fns_in(c0) if f.get('dtor') and not f.get('implicit')]
-    destroyed = False
-    if dt:
-        seen, todo = set(), [dt[0]['id']]
-        while todo:
-            fid = todo.pop()
-            if fid in seen or fid not in F.fn:
-                continue
-            seen.add(fid)
-            g = F.fn[fid]
-            for n in walk(g.get('body')):
-                if n.get('k') == 'call' and (n.get('callee') or {}).get('name', '').startswith('~'):
-                    destroyed = True
-                if n.get('k') == 'call' and ((n.get('callee') or {}).get('parent') or '') == c0:
-                    todo.append(n['callee']['id'])
-                if n.get('k') == 'other' and n.get('cls') == 'CXXPseudoDestructorExpr':
-                    destroyed = True
-    ck.check(R4, 'rb_tree::container payload', destroyed,
-             f'{contracts.short(c0)}: elements are constructed in raw storage (placement new) but no destructor path runs their destructor',
-             loc=places[0]['loc'], fn=places[0]['id'])
     srec = F.need_rec('ipr::impl::String')
     ck.check(R5, 'impl::String', srec['trivially_destructible'], 'impl::String has a non-trivial destructor: bucket destruction could read arena '
              'storage already released', loc=srec['loc'])
